@@ -40,6 +40,7 @@ type FuncSel struct {
 	ParamInvs  map[string]string `json:"param_invs"` // sweep: parameter type -> invariant over $p
 	Kinds      string `json:"kinds"`       // regexp on obligation kinds claimed for this selection (default: all)
 	NoFrame    bool   `json:"no_frame"`    // do not check the modifies frame (schematic contracts of generated code)
+	Ctx        string `json:"ctx"`         // verify against the contract that this package (import path) declares for the function (its environment model)
 	Why        string `json:"why"`
 }
 
@@ -213,6 +214,26 @@ func runCheck(prop, tier, repo, evdir string, verbose bool) int {
 			}
 			continue
 		}
+		// every top-level alternative of the selection must select something: an alternative that matches no function
+		// (a typo, a renamed method) would otherwise hide behind the others and silently shrink the claim
+		for _, alt := range splitTopAlt(sel.Re) {
+			ax, err := regexp.Compile(alt)
+			if err != nil {
+				continue
+			}
+			hit := false
+			for _, n := range names {
+				fn := eng.AllFuncs[n]
+				if eng.inRepo(fn) && fn.Blocks != nil && ax.MatchString(n) && (sel.Mode == "sweep" || eng.contractFor(fn) != nil) {
+					hit = true
+					break
+				}
+			}
+			if !hit {
+				fmt.Printf("TOOL-ERROR CONTRACT-DRIFT alternative %q of selection %q matches no function under contract\n", alt, sel.Re)
+				return 2
+			}
+		}
 		for _, n := range names {
 			fn := eng.AllFuncs[n]
 			if !eng.inRepo(fn) || !rx.MatchString(n) || (ex != nil && ex.MatchString(n)) || fn.Blocks == nil {
@@ -279,7 +300,7 @@ func runCheck(prop, tier, repo, evdir string, verbose bool) int {
 		if j.sel.Kinds != "" {
 			kindsRe, _ = regexp.Compile(j.sel.Kinds)
 		}
-		f := eng.GenVC(j.fn, VerifyOpts{SafetyOnly: j.sel.Mode == "sweep", AllocBound: j.sel.Alloc, NoFrame: j.sel.Mode == "sweep" || j.sel.NoFrame, ParamInvs: j.sel.ParamInvs,
+		f := eng.GenVC(j.fn, VerifyOpts{SafetyOnly: j.sel.Mode == "sweep", AllocBound: j.sel.Alloc, NoFrame: j.sel.Mode == "sweep" || j.sel.NoFrame, ParamInvs: j.sel.ParamInvs, CtxPkg: j.sel.Ctx,
 			NoAssume: func(name, kind string) bool {
 				// what this check does not claim is not assumed either: listed as not claimed, or of a kind outside the selection
 				if kindsRe != nil && !kindsRe.MatchString(kind) {
@@ -372,11 +393,16 @@ func runCheck(prop, tier, repo, evdir string, verbose bool) int {
 	var notClaimedHit []string
 	var assumedObs []string
 	var lines []string
+	usedCallee := map[string]bool{} // contracts of repository functions applied at call sites of the functions verified here
 	drift := false
 	for _, r := range results {
 		f := r.f
 		funcs = append(funcs, f.Name)
 		for _, n := range f.Notes {
+			if strings.HasPrefix(n, "callee contract used: ") {
+				usedCallee[strings.TrimPrefix(n, "callee contract used: ")] = true
+				continue
+			}
 			assume[n] = true
 		}
 		if f.ContractErr != "" {
@@ -488,6 +514,19 @@ func runCheck(prop, tier, repo, evdir string, verbose bool) int {
 		as = append(as, a)
 	}
 	as = append(as, cfg.Assumptions...)
+	var elsewhere []string
+	{
+		sel := map[string]bool{}
+		for _, fn := range funcs {
+			sel[fn] = true
+		}
+		for c := range usedCallee {
+			if !sel[c] {
+				elsewhere = append(elsewhere, c)
+			}
+		}
+		sort.Strings(elsewhere)
+	}
 	as = append(as, uniq(assumedObs)...)
 	sort.Strings(as)
 	sort.Strings(funcs)
@@ -516,6 +555,7 @@ func runCheck(prop, tier, repo, evdir string, verbose bool) int {
 		"trusted_base": []string{"T-ENGINE gcv (SSA->SMT translation, memory model, loop cutting, frame check) — unverified, guarded by cover queries, must-fail selftest corpus and replay",
 			"T-SSA golang.org/x/tools/go/ssa v0.29.0 builds SSA faithful to the Go spec", "T-SOLVER unsat answers of z3 5.1.0 / z3 4.8.12 / cvc5 1.0.3 are correct"},
 		"functions_under_contract": funcs,
+		"callee_contracts_not_verified_here": elsewhere, // applied at call sites, bodies verified by another registered check (tools/contract_audit.py lists any that no check verifies)
 		"obligation_list":          obs,
 		"solver_time_s":            float64(solverMs) / 1000.0,
 		"not_claimed":              uniq(notClaimedHit),
@@ -668,4 +708,30 @@ func (e *Engine) discoverImpls(ifT types.Type) []string {
 		}
 	}
 	return out
+}
+
+// splitTopAlt splits a regular expression at its top-level '|' (outside groups, classes and escapes).
+func splitTopAlt(re string) []string {
+	var out []string
+	depth, inClass, start := 0, false, 0
+	for i := 0; i < len(re); i++ {
+		switch c := re[i]; {
+		case c == '\\':
+			i++
+		case inClass:
+			if c == ']' {
+				inClass = false
+			}
+		case c == '[':
+			inClass = true
+		case c == '(':
+			depth++
+		case c == ')':
+			depth--
+		case c == '|' && depth == 0:
+			out = append(out, re[start:i])
+			start = i + 1
+		}
+	}
+	return append(out, re[start:])
 }
